@@ -33,3 +33,21 @@ impl Status {
 //@end
 }
 
+impl Status {
+//@extract src/task/status.rs :: impl Status :: fn from_taskmap
+    pub fn from_taskmap(s: &str) -> (r: Status)
+        ensures
+            //@ob C19 C18 Status::from_taskmap.the-four-documented-names,-anything-else-is-kept-as-Unknown (never panics)
+            status_name(r) == s@,
+            r is Pending <==> s@ == "pending"@,
+{
+        match s {
+            "pending" => Status::Pending,
+            "completed" => Status::Completed,
+            "deleted" => Status::Deleted,
+            "recurring" => Status::Recurring,
+            v => Status::Unknown(v.to_string()),
+        }
+    }
+//@end
+}
